@@ -351,32 +351,57 @@ func genC19RT(x *Ctx) {
 func breakVLA(r *Rand, v *rtp.VLA, how int) string {
 	pick := func() *rtp.SpatialLayer { return &v.ActiveSpatialLayer[r.Intn(len(v.ActiveSpatialLayer))] }
 	extreme := func() int { return r.Pick(-1, -2, math.MinInt64, math.MinInt64+1, -1<<32, -1<<56) }
+	// an out-of-range value that is IN range after truncation to 8, 16 or 32 bits (or after adding 256):
+	// base + k for a k of the legal range lo … hi
+	wrapped := func(lo, hi int) int {
+		return r.Pick(256, 512, -256, 65536, 1<<32, -1<<32) + r.Range(lo, hi)
+	}
+	top := v.RTPStreamCount - 1 // the largest legal stream id (of a legal count)
+	if top < 0 || top > 3 {
+		top = 3
+	}
 	switch how {
 	case 0:
-		v.RTPStreamCount = r.Pick(0, -1, 5, 6, 255, 256, math.MaxInt64, math.MinInt64)
+		v.RTPStreamCount = r.Pick(0, -1, 5, 6, 255, 256, math.MaxInt64, math.MinInt64, wrapped(1, 4), wrapped(1, 4))
 		return "count-range"
 	case 1:
-		v.RTPStreamID = r.Pick(-1, v.RTPStreamCount, v.RTPStreamCount+1, 4, 256, math.MaxInt64, math.MinInt64)
+		v.RTPStreamID = r.Pick(-1, v.RTPStreamCount, v.RTPStreamCount+1, 4, 256, math.MaxInt64, math.MinInt64,
+			wrapped(0, top), wrapped(0, 3))
 		return "rid-range"
 	case 2:
-		pick().RTPStreamID = r.Pick(-1, v.RTPStreamCount, 4, 5, 256, math.MaxInt64, math.MinInt64)
+		pick().RTPStreamID = r.Pick(-1, v.RTPStreamCount, 4, 5, 256, math.MaxInt64, math.MinInt64,
+			wrapped(0, top), wrapped(0, 3))
 		return "stream-range"
 	case 3:
-		pick().SpatialID = r.Pick(-1, 4, 5, 8, 256, math.MaxInt64, math.MinInt64)
+		pick().SpatialID = r.Pick(-1, 4, 5, 8, 256, math.MaxInt64, math.MinInt64, wrapped(0, 3), wrapped(0, 3))
 		return "spatial-range"
 	case 4:
 		l := pick()
-		if r.Bool() {
+		switch r.Intn(4) {
+		case 0:
 			l.TargetBitrates = []int{}
 			if r.Bool() {
 				l.TargetBitrates = nil
 			}
-		} else {
-			for len(l.TargetBitrates) < 5+r.Intn(3) {
+		case 1:
+			// a count that is 1 … 4 again modulo 256 (257 … 260, 513 … 516), or 255 / 256
+			for n := r.Pick(256, 256, 512)+r.Pick(-1, 0, 1, 2, 3, 4); len(l.TargetBitrates) < n; {
+				l.TargetBitrates = append(l.TargetBitrates, r.Intn(3000))
+			}
+		default:
+			for n := 5 + r.Intn(3); len(l.TargetBitrates) < n; {
 				l.TargetBitrates = append(l.TargetBitrates, r.Intn(3000))
 			}
 		}
 		return "temporal-count"
+	case 11:
+		// no active layer at all (nil or empty list) TOGETHER WITH an out-of-range stream count or id
+		v.ActiveSpatialLayer = nil
+		if r.Bool() {
+			v.ActiveSpatialLayer = []rtp.SpatialLayer{}
+		}
+		breakVLA(r, v, r.Pick(0, 1, 1))
+		return "no-layers+count/rid-range"
 	case 5:
 		d := *pick()
 		d.TargetBitrates = append([]int{}, d.TargetBitrates...)
@@ -456,7 +481,18 @@ func genC19Rej(x *Ctx) {
 			lit(rtp.VLA{RTPStreamID: rid, RTPStreamCount: count, HasResolutionAndFramerate: true})
 		}
 	}
-	for how := 0; how <= 10; how++ {
+	// no active layer (nil / empty list) x every stream count x stream ids just outside it
+	for count := 1; count <= 4; count++ {
+		for _, rid := range []int{-1, count, count + 1, 4, 256 + count - 1, -256} {
+			lit(rtp.VLA{RTPStreamID: rid, RTPStreamCount: count})
+			lit(rtp.VLA{RTPStreamID: rid, RTPStreamCount: count, ActiveSpatialLayer: []rtp.SpatialLayer{}})
+		}
+	}
+	for _, count := range []int{0, -1, 5, 256, 257, 260} {
+		lit(rtp.VLA{RTPStreamCount: count})
+		lit(rtp.VLA{RTPStreamCount: count, ActiveSpatialLayer: []rtp.SpatialLayer{}})
+	}
+	for how := 0; how <= 11; how++ {
 		for i, n := 0, x.N(2000, 100000); i < n; i++ {
 			how := how
 			x.Case(func(c *Case) {
